@@ -1145,9 +1145,13 @@ FAMILIES = [
            describe=lambda c: f"election {['bully', 'ring', 'randomized'][c['strat']]} n={len(c['members'])}"),
 ]
 
-COQ_FILES = ["C12/Model.v", "C12/PaxosNode.v", "C12/PaxosSys.v", "C12/PaxosAgree.v", "C12/PaxosFull.v", "C12/PaxosDecide.v", "C12/LockModel.v", "C12/Lock.v", "C12/MultiModel.v", "C12/Multi.v", "C12/ElectionModel.v", "C12/Election.v", "C12/Props.v"]
+COQ_FILES = ["C12/Model.v", "C12/PaxosNode.v", "C12/PaxosSys.v", "C12/PaxosAgree.v", "C12/PaxosFull.v", "C12/PaxosDecide.v", "C12/LockModel.v", "C12/Lock.v", "C12/MultiModel.v", "C12/Multi.v", "C12/ElectionModel.v", "C12/Election.v",
+             "Base/PyLib.v", "Gen/PaxosGen.v", "C12/GenTie.v", "C12/Props.v"]
 
 TRUSTED = [
+    "translator harness/translate/py2coq.py + declared types (py2coq_targets.py PaxosGen): the comparison @dataclass(order=True) generates for "
+    "Ballot is regenerated from the class body of consensus/paxos.py on every run and proved to be the model's ballot order (C12/GenTie.v); "
+    "trusted: dataclass semantics (lexicographic on compare fields in declaration order), string node ids read as integers",
     "Coq 8.16.1 kernel (coqc, vm_compute for refutation witnesses and case evaluation); no native_compute; no axioms (all 21 theorems of C12/Props.v closed under the global context)",
     "harness/props/c12.py: scenario generators, recorders (subclass of PaxosNode overriding handle_event), encoders, oracle",
     "trace replay compares private attributes _promised_ballot, _accepted_ballot, _accepted_value, _current_ballot, "
@@ -1188,7 +1192,12 @@ def run_jobs(ctx, jobs, chunk, workers=6):
 
 
 def run(ctx):
+    from props import pygen
+    ok, info = pygen.regenerate("PaxosGen")       # Ballot's dataclass order translated from $HS_REPO by py2coq
+    ctx.coverage["regenerated"] = info
     ctx.prove(COQ_FILES, allowed_axioms=(), trusted_base=TRUSTED)
+    if not ok and ctx.pending_obligation_violation:
+        ctx.pending_obligation_violation["translator"] = info.get("error")
     fams = {f.name: f for f in FAMILIES}
     stats = run_jobs(ctx, [(fams["paxos"], ctx.n(200, 6000)), (fams["lock"], ctx.n(60, 600)),
                            (fams["multi"], ctx.n(100, 3000)), (fams["election"], ctx.n(30, 800))], ctx.n(34, 100), workers=8)
